@@ -1305,7 +1305,9 @@ class Signature:
             )
             if tv_map is None:
                 had_error = True
-            if param_used_any:
+            if param_used_any and position is not DEFAULT:
+                # A parameter that received no argument (its default, or an
+                # empty *args/**kwargs) cannot have matched "due to Any".
                 used_any = True
             if remaining_value is not None:
                 if isinstance(position, int):
